@@ -594,7 +594,11 @@ let cmd_mpdiag args =
     let tiers = match gen_tiers with Some t -> t | None -> [] in
     let text = ostr gen_preamble ^ hex_decode h in
     (match parse_text_diag test_uclass tiers (bytes_of text) with
-     | None -> emit "none"
+     | None ->
+       (* a text only the LR error recovery handles: where the first syntax error is (ParseLoc) *)
+       (match first_error_span_text test_uclass tiers (bytes_of text) with
+        | Some (a, b) -> emit (Printf.sprintf "none syntax %d:%d" (int_of_nat a) (int_of_nat b))
+        | None -> emit "none")
      | Some r ->
        (match all_diags r with
         | [] -> emit "ok"
